@@ -733,3 +733,25 @@ Proof.
   intros Hm. destruct s1 as [r1 [|]], s2 as [r2 [|]]; unfold qmask, qadd; cbn [fst snd andb xorb];
     mod_ring m.
 Qed.
+
+(* glue_ok instantiated for the VTMF encoding; the exponents are the non-negative integers (type N), which is
+   what MaskingValue and the glue produce *)
+Definition vmaskN (p g h : Z) (c : Z * Z) (r : N) : Z * Z := vmask p g h c (Z.of_N r).
+Definition vaddN (q : Z) (r1 r2 : N) : N := Z.to_N (vadd q (Z.of_N r1) (Z.of_N r2)).
+
+Lemma vmaskN_vmaskN p q g h : (1 < p)%Z -> (0 < q)%Z -> powm g q p = 1%Z -> powm h q p = 1%Z ->
+  forall c r1 r2, vmaskN p g h (vmaskN p g h c r1) r2 = vmaskN p g h c (vaddN q r1 r2).
+Proof.
+  intros Hp Hq Hg Hh c r1 r2. unfold vmaskN, vaddN. rewrite Z2N.id.
+  - apply vmask_vmask; try assumption; lia.
+  - unfold vadd. apply Z.mod_pos_bound. assumption.
+Qed.
+
+Theorem vtmf_glue_ok p q g h : (1 < p)%Z -> (0 < q)%Z -> powm g q p = 1%Z -> powm h q p = 1%Z ->
+  forall s sigma pi n, length s = n -> length sigma = n -> length pi = n -> (n <= max_cards)%nat ->
+  Permutation (map fst sigma) (iota n) -> in_range N n pi ->
+  exists s1 gam s2, mix (Z * Z) N (vmaskN p g h) s sigma = Ret s1 /\ glue N (vaddN q) sigma pi = Ret gam /\
+                    mix (Z * Z) N (vmaskN p g h) s1 pi = Ret s2 /\ mix (Z * Z) N (vmaskN p g h) s gam = Ret s2.
+Proof.
+  intros Hp Hq Hg Hh. apply glue_ok. now apply vmaskN_vmaskN.
+Qed.
